@@ -126,13 +126,19 @@ Definition dispatch_hooks (toks : list (list N)) : option (list N * list N) :=
   | _ => None
   end.
 
+(* bytes 0x00-0x03 (pre-encoded bases of the table inherited from minimap2) are left unspecified by the properties:
+   for a sequence that contains one, the model (regenerated tables) is still compared with the implementation, and
+   the relations between the three iterators are still checked, but there is no specification line *)
+Definition has_raw (s : list N) : bool := existsb (fun b => b <? 4) s.
+Definition unspecified : list N := str "UNSPECIFIED".
+
 Definition dispatch0 (line : list N) : list N * list N :=
   match dispatch_hooks (split_on 32 line) with Some r => r | None =>
   match dispatch_hist (split_on 32 line) with Some r => r | None =>
   match dispatch_file (split_on 32 line) with Some r => r | None =>
   match split_on 32 line with
   | [op; a; b] =>
-      if is "kg" op then (m_kg (parse_nat a) (parse_hex b), s_kg (parse_nat a) (parse_hex b))
+      if is "kg" op then (m_kg (parse_nat a) (parse_hex b), if has_raw (parse_hex b) then unspecified else s_kg (parse_nat a) (parse_hex b))
       else if is "rc" op then (m_rc (parse_nat a) (parse_dec b), s_rc (parse_nat a) (parse_dec b))
       else if is "dec" op then (m_dec (parse_nat a) (parse_dec b), s_dec (parse_nat a) (parse_dec b))
       else if is "cgr" op then (m_cgr (parse_Z a) (parse_hex b), s_cgr (parse_Z a) (parse_hex b))
@@ -144,8 +150,8 @@ Definition dispatch0 (line : list N) : list N * list N :=
       else if is "header" op then (m_header (parse_nat a), s_header (parse_nat a))
       else unknown
   | [op; a; b; c] =>
-      if is "mg" op then (m_mg (parse_nat a) (parse_nat b) (parse_hex c), s_mg (parse_nat a) (parse_nat b) (parse_hex c))
-      else if is "kmg" op then (m_kmg (parse_nat a) (parse_nat b) (parse_hex c), s_kmg (parse_nat a) (parse_nat b) (parse_hex c))
+      if is "mg" op then (m_mg (parse_nat a) (parse_nat b) (parse_hex c), if has_raw (parse_hex c) then unspecified else s_mg (parse_nat a) (parse_nat b) (parse_hex c))
+      else if is "kmg" op then (m_kmg (parse_nat a) (parse_nat b) (parse_hex c), if has_raw (parse_hex c) then unspecified else s_kmg (parse_nat a) (parse_nat b) (parse_hex c))
       else if is "oligo" op then (m_oligo (parse_nat a) (flag b) (parse_hex c), s_oligo (parse_nat a) (flag b) (parse_hex c))
       else if is "obig" op then
         (* a record too long for the executable models: the harness checks the proved relation "the raw entries sum to
